@@ -92,14 +92,15 @@ func (ledger *SimpleLedger[T]) Get(key LedgerKey) (T, xerrors.XError) {
 func (ledger *SimpleLedger[T]) get(key LedgerKey) (T, xerrors.XError) {
 	var emptyNil T
 
+	// search in cachedItems
+	// an item which is set again after being removed is found here
+	if item, ok := ledger.cachedItems.getGotItem(key); ok {
+		return item, nil
+	}
+
 	// if the item is already removed, return xerrors.ErrNotFoundResult
 	if ledger.cachedItems.isRemovedKey(key) {
 		return emptyNil, xerrors.ErrNotFoundResult
-	}
-
-	// search in cachedItems
-	if item, ok := ledger.cachedItems.getGotItem(key); ok {
-		return item, nil
 	}
 
 	if item, xerr := ledger.read(key); xerr != nil {
